@@ -601,6 +601,7 @@ pub fn check(case: &Case, out: &mut CaseOut) {
 
 pub fn property() -> Property {
     Property {
+        fuzz: vec![],
         id: "C13",
         rule: "a case = history of 1..10 responses to one INVITE sent through Initiator (status from {100,180,183,199,200,202,300,404,486,603}, To-tag none / 3 tags, Contact present 93%, 0..3 Record-Route, Supported timer/100rel, Require+RSeq, Session-Expires) at gaps 1..31000 ms under a paused clock; the application keeps every Early, polls it and lets go of it when it yields a session or Terminated. exhaustive sub-check: every history of length <= 4 (thorough 5) over {100,180,200,486} x {no tag,t0,t1}. Oracle = reference classifier over the set of tags seen so far; every response carries a unique X-Seq marker, so recipients are identified exactly. Non-trivial = >=2 distinct To-tags, or a 2xx after an 18x of the same tag, or a response for a tag that already has a session; distinct by case.",
         assumptions: vec![
